@@ -2,9 +2,12 @@ package sim
 
 import (
 	"bufio"
+	"bytes"
 	"encoding/json"
+	"fmt"
 	"io"
 	"os"
+	"os/exec"
 )
 
 // GenesisForProfile selects the genesis configuration of a generator profile.
@@ -14,7 +17,11 @@ func GenesisForProfile(profile string, hs uint64) GenesisCfg {
 
 // Replay re-executes the raw ops recorded in a trace (or a replay file holding
 // {"profile":..,"hist":..,"ops":[raw ops]}) on the current tree and prints the fresh trace.
-func Replay(path string, out io.Writer) int {
+func Replay(path string, out io.Writer) int { return ReplayOpt(path, out, false) }
+
+// ReplayOpt replays every history of a trace; with restarts the package-level state of the
+// application is reset after every operation (Mode K emulation of crash + restart from the DB).
+func ReplayOpt(path string, out io.Writer, restarts bool) int {
 	f, err := os.Open(path)
 	if err != nil {
 		panic(err)
@@ -27,51 +34,148 @@ func Replay(path string, out io.Writer) int {
 		Raw     *Op             `json:"raw"`
 		Ops     []Op            `json:"ops"`
 	}
-	var ops []Op
-	profile := "main"
-	var hist uint64
+	type hist struct {
+		profile string
+		id      uint64
+		ops     []Op
+	}
+	var hs []*hist
 	if whole, err := os.ReadFile(path); err == nil {
 		var l line
 		if json.Unmarshal(whole, &l) == nil && len(l.Ops) > 0 {
-			if l.Profile != "" {
-				profile = l.Profile
+			p := l.Profile
+			if p == "" {
+				p = "main"
 			}
-			hist = l.Hist
-			ops = l.Ops
+			hs = append(hs, &hist{profile: p, id: l.Hist, ops: l.Ops})
 		}
 	}
-	sc := bufio.NewScanner(f)
-	sc.Buffer(make([]byte, 1<<20), 1<<28)
-	for len(ops) == 0 && sc.Scan() {
-		var l line
-		if err := json.Unmarshal(sc.Bytes(), &l); err != nil {
-			continue
+	if len(hs) == 0 {
+		sc := bufio.NewScanner(f)
+		sc.Buffer(make([]byte, 1<<20), 1<<28)
+		for sc.Scan() {
+			var l line
+			if err := json.Unmarshal(sc.Bytes(), &l); err != nil {
+				continue
+			}
+			if l.Genesis != nil {
+				p := l.Profile
+				if p == "" {
+					p = "main"
+				}
+				hs = append(hs, &hist{profile: p, id: l.Hist})
+				continue
+			}
+			if l.Raw != nil && len(hs) > 0 {
+				hs[len(hs)-1].ops = append(hs[len(hs)-1].ops, *l.Raw)
+			}
 		}
-		if l.Profile != "" {
-			profile = l.Profile
-			hist = l.Hist
-		}
-		if l.Raw != nil {
-			ops = append(ops, *l.Raw)
-		}
-		ops = append(ops, l.Ops...)
 	}
-	c := NewChain(GenesisForProfile(profile, hist))
-	w := NewWorld(c)
 	wr := bufio.NewWriterSize(out, 1<<20)
 	defer wr.Flush()
 	enc := json.NewEncoder(wr)
-	enc.Encode(M{"genesis": M{"env": w.EnvJSON(), "state": w.Dump(c.Ctx())}, "hist": hist, "profile": profile})
-	for i := range ops {
-		res, o := w.Exec(&ops[i])
-		enc.Encode(M{"i": i, "op": o, "res": res, "state": w.Dump(c.Ctx()), "raw": ops[i]})
-		if res.Res == "hang" {
-			wr.Flush()
-			os.Exit(0)
-		}
-		if res.Res == "panic" {
-			break
+	for _, h := range hs {
+		resetGlobals()
+		c := NewChain(GenesisForProfile(h.profile, h.id))
+		w := NewWorld(c)
+		enc.Encode(M{"genesis": M{"env": w.EnvJSON(), "state": w.Dump(c.Ctx())}, "hist": h.id, "profile": h.profile})
+		for i := range h.ops {
+			res, o := w.Exec(&h.ops[i])
+			if restarts {
+				resetGlobals()
+			}
+			enc.Encode(M{"i": i, "op": o, "res": res, "state": w.Dump(c.Ctx()), "raw": h.ops[i]})
+			if res.Res == "hang" {
+				wr.Flush()
+				os.Exit(0)
+			}
+			if res.Res == "panic" {
+				break
+			}
 		}
 	}
+	return 0
+}
+
+// Twin replays `trace` with a restart after every operation (child process) and compares the
+// state after every step with the original run, ignoring the package variable itself.
+func Twin(self string, trace string, out io.Writer) int {
+	cmd := exec.Command(self, "-replay", trace, "-restarts")
+	cmd.Stderr = os.Stderr
+	b, err := cmd.Output()
+	if err != nil {
+		fmt.Fprintf(out, "TWIN-ERROR %v\n", err)
+		return 2
+	}
+	read := func(r io.Reader) [][]byte {
+		var ls [][]byte
+		sc := bufio.NewScanner(r)
+		sc.Buffer(make([]byte, 1<<20), 1<<28)
+		for sc.Scan() {
+			ls = append(ls, append([]byte{}, sc.Bytes()...))
+		}
+		return ls
+	}
+	f, err := os.Open(trace)
+	if err != nil {
+		panic(err)
+	}
+	defer f.Close()
+	a := read(f)
+	bb := read(bytes.NewReader(b))
+	type line struct {
+		Genesis json.RawMessage        `json:"genesis"`
+		Hist    uint64                 `json:"hist"`
+		I       int                    `json:"i"`
+		Op      map[string]interface{} `json:"op"`
+		Res     map[string]interface{} `json:"res"`
+		State   map[string]interface{} `json:"state"`
+	}
+	n, div, steps := len(a), 0, 0
+	if len(bb) < n {
+		n = len(bb)
+	}
+	var hist uint64
+	skip := false
+	prevGlobal := "0"
+	for i := 0; i < n; i++ {
+		var x, y line
+		json.Unmarshal(a[i], &x)
+		json.Unmarshal(bb[i], &y)
+		if x.Genesis != nil {
+			hist = x.Hist
+			skip = false
+			prevGlobal = "0"
+			continue
+		}
+		if skip {
+			continue
+		}
+		steps++
+		pg := prevGlobal
+		prevGlobal = fmt.Sprint(x.State["global"])
+		delete(x.State, "global")
+		delete(y.State, "global")
+		xs, _ := json.Marshal(x.State)
+		ys, _ := json.Marshal(y.State)
+		if string(xs) != string(ys) || fmt.Sprint(x.Res["res"]) != fmt.Sprint(y.Res["res"]) {
+			fields := []string{}
+			for k, v := range x.State {
+				vb, _ := json.Marshal(v)
+				wb, _ := json.Marshal(y.State[k])
+				if string(vb) != string(wb) {
+					fields = append(fields, k)
+				}
+			}
+			cls := "none"
+			if pg != "0" {
+				cls = "stale-global"
+			}
+			fmt.Fprintf(out, "MONITOR hist=%d i=%d op=%v prop=C03 clause=twinDivergence cls=%s fields=%v res=%v/%v\n", hist, x.I, x.Op["k"], cls, fields, x.Res["res"], y.Res["res"])
+			div++
+			skip = true // later steps of this history follow from the first divergence
+		}
+	}
+	fmt.Fprintf(out, "TWIN-SUMMARY steps=%d divergences=%d\n", steps, div)
 	return 0
 }
